@@ -16,6 +16,15 @@ CHECKS = {
          "Bounded: 3-4 handles, <=2 premises per justification, graph cut at 4-6 ops (walks to 9); insertion guard from the "
          "property's quantifier; TLC and the harness's projection are trusted.",
          "TLA+ lock-step ideal/as-built spec, TLC state-graph dump replayed on the real object (transition cover + all short histories + walks)"),
+ "C18": ("model_checking",
+         "TLC checks acyclicity, absence of dangling declarations and agreement of the two import records on the bounded "
+         "ModuleManager model; every transition of the dumped graphs (from the empty manager and from a populated one with "
+         "re-exports), all short histories and seeded walks to 7 ops are replayed on the real ModuleManager, comparing results, "
+         "declarations, import graph and both visibility queries for every (rule, module) after every op.",
+         "DESIGN.md §4 C18",
+         "Bounded: 3 modules (MAIN, A, B), 3 rule names, patterns *, r*, *a, exact; <=3 declarations; graph cut at 3-4 ops; two "
+         "re-export defects are listed known findings matched by signature; TLC and the harness projection are trusted.",
+         "TLA+ state-machine spec, TLC state-graph dump replayed on the real object (transition cover + all short histories + walks)"),
 }
 
 NOT_YET = "check not built yet in this round (see DESIGN.md §9 build order); no claim is made"
